@@ -50,11 +50,6 @@ DEC_POOL = ['0', '1', '-1', '0.5', '-0.5', '1.50', '12.345', '100', '1E+2', '1E+
 DBL_POOL = [0.0, 1.0, -1.0, 0.5, 1.5, 2.5, 1e22, 1e-5, 1e16, 123456.789, -2.5e-10, 3.141592653589793, 1e308, 5e-324, 100.0]
 
 
-def T(v):
-    """JSON lists -> tuples-free canonical form (we keep lists; helper for equality)"""
-    return v
-
-
 # ------------------------------------------------------------------ neutral values <-> native
 def to_native_leaf(v):
     k = v[0]
@@ -676,24 +671,8 @@ class GenSkip(Exception):
     pass
 
 
-def norm_json(v):
-    """tuples -> lists, so that values survive a JSON round trip unchanged"""
-    if isinstance(v, (list, tuple)):
-        return [norm_json(x) for x in v]
-    if isinstance(v, dict):
-        return {k: norm_json(x) for k, x in v.items()}
-    return v
-
-
 # ------------------------------------------------------------------ documents in declared order
 XSI = 'http://www.w3.org/2001/XMLSchema-instance'
-
-
-def member_names(cls, fname):
-    """(namespace, element name) Spyne writes a member under, and for Array members the
-    (namespace, name) of the items; read from the class metadata, not from the schema"""
-    v = cls.get_flat_type_info(cls)[fname]
-    return v
 
 
 def near_counts(rng, f):
